@@ -317,6 +317,10 @@ const (
 	dNo         = "DNo"         // listener answers "no" to queryretire
 	dOk         = "DOk"         // listener answers "ok"
 	dErr        = "DErr"        // the request fails (error response)
+	// not a disposition: an entry of the node's service list that the services section does not
+	// define (leftover / typo).  StartServices starts nothing for it, makeFullNameServices does
+	// not advertise it, FilterSelfServices does not hand it to the controller.
+	dGhost = "Ghost"
 )
 
 type listener struct{ ans string }
@@ -466,8 +470,8 @@ func waitOn(ch chan struct{}, what string) {
 }
 
 // writeConfig writes cluster.yaml / master.yaml / nodes.yaml of the case: one node n1 whose
-// service list is the Host items in order (a name may be listed twice); the services section
-// gives every name the type of its first declaration.
+// service list is the Host and Ghost items in order (a name may be listed twice); the services
+// section gives every Host name the type of its first declaration and has nothing for a Ghost.
 func writeConfig(cfg []hx.Pair) string {
 	dir := filepath.Join(scratch, "cfg")
 	if err := os.MkdirAll(dir, 0o755); err != nil {
@@ -485,6 +489,9 @@ func writeConfig(cfg []hx.Pair) string {
 	for _, c := range cfg {
 		tok, disp := c.A.(int64), hx.AsTerm(c.B).Name
 		fmt.Fprintf(&list, "      - %s\n", svcName(tok))
+		if disp == dGhost {
+			continue // listed on the node, not defined in the services section
+		}
 		if !seen[tok] {
 			seen[tok] = true
 			fmt.Fprintf(&types, "  %s:\n    Type: %s\n", svcName(tok), svcType(disp))
@@ -509,6 +516,9 @@ func newWorld(cfg []hx.Pair) *world {
 	w.prov = &topoProvider{log: w.log, hidden: map[string]bool{}}
 	for _, c := range cfg {
 		tok, disp := c.A.(int64), hx.AsTerm(c.B).Name
+		if disp == dGhost {
+			continue
+		}
 		if _, ok := w.hostedBy[svcName(tok)]; !ok {
 			w.hostedBy[svcName(tok)] = tok
 			w.dispOf[tok] = disp
@@ -551,6 +561,13 @@ func newWorld(cfg []hx.Pair) *world {
 	w.pids = append(w.pids, w.admin)
 	w.stoppers = append(w.stoppers, w.ctrl.VerifStop)
 	w.settle()
+	// the services actually started are the defined entries that have a process - whatever
+	// else the list contains
+	for name, tok := range w.hostedBy {
+		if _, ok := w.running[tok]; ok != (w.dispOf[tok] != dAbsent) {
+			panic("c12: App.StartServices started/skipped " + name + " against its definition")
+		}
+	}
 	return w
 }
 
